@@ -39,6 +39,12 @@ UVL_OPERATORS: dict[ASTOperation, str] = {ASTOperation.AND: "&",
                                           }
 
 
+UVL_KEYWORDS = {'include', 'namespace', 'imports', 'as', 'features', 'cardinality', 'constraint',
+                'constraints', 'sum', 'avg', 'len', 'floor', 'ceil', 'String', 'Integer', 'Real',
+                'Boolean', 'Arithmetic', 'Type', 'or', 'alternative', 'optional', 'mandatory',
+                'true', 'false'}
+
+
 class UVLWriter(ModelToText):
     @staticmethod
     def get_destination_extension() -> str:
@@ -162,7 +168,16 @@ def safename(name: str) -> str:
 def safe_simple_name(name: str) -> str:
     if name.startswith("'") and name.endswith("'"):
         return name
-    return f'"{name}"' if any(char not in safecharacters() for char in name) else name
+    return name if is_plain_identifier(name) else f'"{name}"'
+
+
+def is_plain_identifier(name: str) -> bool:
+    """An identifier can be written without quotes if it is a letter followed by letters,
+    digits or underscores, and it is not a word reserved by the language."""
+    return (name != ''
+            and name[0] in string.ascii_letters
+            and all(char in safecharacters() for char in name)
+            and name not in UVL_KEYWORDS)
 
 
 def safecharacters() -> str:
